@@ -7,6 +7,23 @@ STUB_COMMON = ["storage: SimStore (map-backed implementation of the documented o
                "user agent and login UI: harness actors (real net/http/cookiejar)",
                "clock: testing/synctest fake clock", "randomness: testing/cryptotest seeded crypto/rand"]
 
+FLOW_ASSUME = ["storage follows the documented op.Storage contract (SimStore, DESIGN.md section 2.5) and never lies about its own effects",
+               "requests are served one at a time unless a check says otherwise; no real sockets, TLS or net/http server internals",
+               "checks are compiled with go1.26.8 while the pinned suite uses go1.24.1",
+               "a clean batch is evidence over the sampled histories, not a proof"]
+
+
+def flow(engine, technique, rule, quick, thorough, min_probes, level_text, design_ref, level="exploration", level_note=None, extra_assume=None):
+    return {
+        "level": level, "engine": engine, "technique": technique, "rule": rule, "quick": quick, "thorough": thorough,
+        "min_probes": min_probes, "components": {"real": REAL_COMMON, "stub": STUB_COMMON},
+        "assumptions": FLOW_ASSUME + (extra_assume or []),
+        "level_text": level_text,
+        "level_note": level_note or "Trusted: SimStore as reference storage, synctest/cryptotest, the harness's reference model of the statement. Not covered: real sockets/TLS, concurrent requests inside one handler.",
+        "design_ref": design_ref,
+    }
+
+
 PROPS = {
     "C13": {
         "level": "exploration",
@@ -31,4 +48,27 @@ PROPS = {
         "level_note": "Trusted: synctest quiescence detection, the hook placement in jwks.go (build tag verif), go-jose. Not covered: real sockets/TLS, preemption inside critical sections.",
         "design_ref": "DESIGN.md section 4 C13 and Appendix A",
     },
+    "C04": flow(
+        "W-flows",
+        "deterministic simulation: seeded multi-client histories of authorize/login/callback/code-exchange against the real provider (both routers) over simulated storage, network and clock; one-directional history oracle",
+        "one evaluation = one seeded world (router, algorithm, provider flags, 5 client registrations) running 30-70 actor steps: start authorization, login, redeem a code "
+        "honestly or with 1-2 deviations (foreign client, replay, wrong/missing redirect_uri or verifier, wrong/no secret). non-trivial = at least one honest redemption "
+        "succeeded and one adversarial redemption was attempted; distinct = distinct step history",
+        {"runs": 250, "wall": 60}, {"runs": 40000, "wall": 900},
+        {"quick": {"_runs": 1500, "honest-redeem-success": 1000, "adversarial-redeem": 5000, "code-issued": 3000},
+         "thorough": {"_runs": 50000, "honest-redeem-success": 50000}},
+        "Seeded exploration of interleaved multi-client histories; every 2xx token response is checked against the ledger of issued codes (client, redirect URI, PKCE, single use, token binding).",
+        "DESIGN.md section 4 C04"),
+    "C10": dict(flow(
+        "W-fault",
+        "deterministic simulation with exhaustive single-fault enumeration: for each flow and router a fault-free pilot counts the storage calls of the target request, then one fresh seeded world per (k, fault kind) fails exactly the k-th storage call",
+        "one evaluation = one (configuration seed, flow, router): pilot + one simulated world per (k-th storage call of the target request) x (error | context-timeout | torn out-parameter). "
+        "distinct non-trivial case = distinct (router, flow, k, fault kind, storage method) in which the fault actually fired inside the target request",
+        {"runs": 16, "wall": 90}, {"runs": 2500, "wall": 1200},
+        {"quick": {"_runs": 200, "error": 800, "timeout": 800, "torn": 30, "_distinct": 400},
+         "thorough": {"_runs": 20000, "error": 50000, "torn": 2000}},
+        "Fault enumeration: every storage-call position of every scripted flow on both routers is failed once per fault kind (complete in k for the flows and configurations run); the response is checked for an error answer and for the absence of codes, tokens, claims and active:true.",
+        "DESIGN.md section 4 C10", level="fault_enumeration",
+        level_note="Trusted: SimStore reports every injected fault as an error (no silent loss); the flow scripts cover 26 target requests x 2 routers. Multi-fault sequences are not enumerated."),
+        exhaustive_if_probes=[f"flow:{f}/{r}" for f in ['authorize', 'authorize-with-hint', 'callback-code', 'callback-code-formpost', 'callback-idtoken-token', 'callback-idtoken', 'callback-idtoken-token-formpost', 'code-exchange', 'code-exchange-offline', 'code-exchange-public', 'code-exchange-jwtclient', 'refresh', 'client-credentials', 'jwt-bearer', 'token-exchange-access', 'token-exchange-refresh', 'token-exchange-id', 'token-exchange-actor', 'device-authorization', 'device-token', 'userinfo', 'introspect', 'revoke-access', 'revoke-refresh', 'end-session', 'keys'] for r in ("A", "B")]),
 }
